@@ -411,7 +411,7 @@ def malformed_cases(ctx, rng, n):
         for cls in CLS:
             vv = v if cls in ("scalar", "fraction") else _container(rng, 3)
             yield _case("malformed", [
-                form(cls, c, vv, dim=3), form(cls, u, vv, dim=3), form(cls, vv, c, u, dim=3), form(cls, u, c, vv, dim=3),
+                form(cls, c, vv, dim=3), form(cls, u, vv, dim=3), form(cls, vv, c, u, dim=3), form(cls, u, c, v, dim=3),
                 form(cls, vv, w, c, dim=3), form(cls, c, vv, w, dim=3), form(cls, vv, u, "nope", dim=3),
                 form(cls, "nope", vv, u, dim=3), form(cls, OQ(u, c), vv, u, dim=3), form(cls, vv, dim=3),
                 form(cls, vv, None, c, dim=3), form(cls, c, vv, 7, dim=3), form(cls, vv, 7, dim=3),
